@@ -242,6 +242,30 @@ Theorem C02_h2_stream_ended : forall fs last,
 Proof. exact (fun fs last Ho => conj (ended_on_data fs last Ho) (ended_on_trailers fs Ho)). Qed.
 Print Assumptions C02_h2_stream_ended.
 
+(* Several exchanges in flight on ONE connection.  [stream_view sid l] = what stream sid gets of
+   the connection's frame sequence l; [foreign sid c] = c is none of its business (a frame of
+   another stream, a PING, a graceful GOAWAY covering sid).  For EVERY interleaving of a
+   stream's own frames with anything foreign - frames of any number of other streams, also
+   streams that end or are reset meanwhile - the stream sees exactly its own frames, and its
+   caller reads exactly what it would read with the connection to itself. *)
+Theorem C02_h2_stream_view_interleave : forall sid own other l,
+  interleave (map (CFrame sid) own) other l -> Forall (foreign sid) other ->
+  stream_view sid l = own.
+Proof. exact stream_view_interleave. Qed.
+Print Assumptions C02_h2_stream_view_interleave.
+
+Theorem C02_h2_concurrent_streams_independent : forall cl hdr_end sid own other l,
+  interleave (map (CFrame sid) own) other l -> Forall (foreign sid) other ->
+  h2_conn_read cl hdr_end sid l = h2_read cl hdr_end own.
+Proof. exact concurrent_streams_independent. Qed.
+Print Assumptions C02_h2_concurrent_streams_independent.
+
+Theorem C02_h2_foreign_events : forall sid,
+  (forall s e, s <> sid -> foreign sid (CFrame s e)) /\ foreign sid CPing /\
+  (forall last, (sid <= last)%N -> foreign sid (CGoAway last)).
+Proof. exact (fun sid => conj (foreign_other_stream sid) (conj (foreign_ping sid) (foreign_graceful_goaway sid))). Qed.
+Print Assumptions C02_h2_foreign_events.
+
 (* lower-case names on the wire, the same canonical multimap for the caller *)
 Theorem C02_h2_header_collect : forall fs,
   token_names fs -> none_named K_TRAILER fs -> h2_header (lower_fields fs) = (collect fs, []).
